@@ -453,6 +453,8 @@ LABEL_WORDS = [b'LONG-NAME', b'VALUES', b'DIMENSION', b'AXIS', b'ZONES', b'STATU
 
 
 def random_set_type(rng):
+    if rng.random() < 0.04:
+        return b'ORIGIN', 1         # further ORIGIN sets are legal (5.2: one or more) and stay in the same logical file
     if rng.random() < 0.6:
         st = rng.choice(sorted(PUBLIC_SET_TYPES))
         return st, PUBLIC_SET_TYPES[st]
